@@ -77,35 +77,35 @@ def _compute_thl_try_speciation(
     min_ltr = table.entry()
     min_rtr = table.entry()
 
+    # The loss cost depends on how far below the child species the child object
+    # is mapped, so it has to be part of the values being minimised
     for left_child in left_species.traverse():
+        dist = loss_cost * species_lca.distance(left_species, left_child)
         min_ltl.update(
             Candidate(
-                table[left_node][left_child].value(),
+                table[left_node][left_child].value() + dist,
                 left_child,
             )
         )
         min_rtl.update(
             Candidate(
-                table[right_node][left_child].value(),
+                table[right_node][left_child].value() + dist,
                 left_child,
             )
         )
 
     for right_child in right_species.traverse():
-        min_ltr.update(Candidate(table[left_node][right_child].value(), right_child))
-        min_rtr.update(Candidate(table[right_node][right_child].value(), right_child))
+        dist = loss_cost * species_lca.distance(right_species, right_child)
+        min_ltr.update(
+            Candidate(table[left_node][right_child].value() + dist, right_child)
+        )
+        min_rtr.update(
+            Candidate(table[right_node][right_child].value() + dist, right_child)
+        )
 
     def spe_combinator(left, right):
         return Candidate(
-            spe_cost
-            + left.value
-            + right.value
-            + loss_cost
-            * (
-                species_lca.distance(root_species, left.info)
-                + species_lca.distance(root_species, right.info)
-                - 2
-            ),
+            spe_cost + left.value + right.value,
             MappingInfo(left.info, right.info),
         )
 
@@ -137,11 +137,17 @@ def _compute_thl_try_duplication_transfer(
 
     for other_species in species_lca.tree.traverse():
         if species_lca.is_ancestor_of(root_species, other_species):
+            # Same remark as for speciations: minimise value plus loss cost
+            dist = loss_cost * species_lca.distance(root_species, other_species)
             min_ltc.update(
-                Candidate(table[left_node][other_species].value(), other_species)
+                Candidate(
+                    table[left_node][other_species].value() + dist, other_species
+                )
             )
             min_rtc.update(
-                Candidate(table[right_node][other_species].value(), other_species)
+                Candidate(
+                    table[right_node][other_species].value() + dist, other_species
+                )
             )
         elif not species_lca.is_ancestor_of(other_species, root_species):
             min_lts.update(
@@ -154,33 +160,20 @@ def _compute_thl_try_duplication_transfer(
     # Try mapping as a duplication
     def dup_combinator(left, right):
         return Candidate(
-            dup_cost
-            + left.value
-            + right.value
-            + loss_cost
-            * (
-                species_lca.distance(root_species, left.info)
-                + species_lca.distance(root_species, right.info)
-            ),
+            dup_cost + left.value + right.value,
             MappingInfo(left.info, right.info),
         )
 
     # Try mapping as a horizontal transfer
     def hgt_l_combinator(left, right):
         return Candidate(
-            hgt_cost
-            + left.value
-            + right.value
-            + loss_cost * species_lca.distance(root_species, left.info),
+            hgt_cost + left.value + right.value,
             MappingInfo(left.info, right.info),
         )
 
     def hgt_r_combinator(left, right):
         return Candidate(
-            hgt_cost
-            + left.value
-            + right.value
-            + loss_cost * species_lca.distance(root_species, right.info),
+            hgt_cost + left.value + right.value,
             MappingInfo(left.info, right.info),
         )
 
